@@ -189,6 +189,8 @@ class ndarray(object):
         return ndarray._new(vals, shape, kind)
 
     def _compare(self, other, fn):
+        if other is masked:
+            raise Outside("plain array compared with the numpy.ma.masked constant (statistic of an all-missing array)")
         a, b, shape, kb = self._operands(other)
         return ndarray._new([fn(x, y) for x, y in zip(a, b)], shape, 'b')
 
@@ -603,7 +605,17 @@ class MaskedArray(ndarray):
     def __truediv__(self, o): return self._div(self, o)
     def __rtruediv__(self, o): return self._div(o, self)
 
+    def _mask_all(self):
+        if self._mask is None:
+            self._mask = ndarray._new([_T()] * self.size, self.shape, 'b')
+        else:
+            for p in self._mask.idx.ravel().tolist():
+                self._mask.buf[p] = _T()
+        return self
+
     def _iop(self, o, fn, ident, name):
+        if o is masked:
+            return self._mask_all()
         om = o._mask if isinstance(o, MaskedArray) else None
         if om is not None:
             if self._mask is None:
@@ -625,6 +637,10 @@ class MaskedArray(ndarray):
     def __imul__(self, o): return self._iop(o, operator.mul, 1, 'multiply')
 
     def __itruediv__(self, o):
+        if o is masked:
+            if self.kind != 'f':
+                raise UFuncTypeError("Cannot cast ufunc 'divide' output from dtype('float64') to dtype('int64') with casting rule 'same_kind'")
+            return self._mask_all()
         od = o.data if isinstance(o, MaskedArray) else o
         a, b, shape, kb = ndarray._operands(self.data, od)
         om = _bc(o._mask, shape) if isinstance(o, MaskedArray) and o._mask is not None else [_F()] * len(a)
